@@ -450,6 +450,9 @@ class CuckooSystem(System):
         want += struct.pack("=II", f.bucket_size, f.max_swaps)
         if bytes(want) != blob:
             bad("C06", "cuckoo.layout", {"expected": bytes(want).hex(), "obs": blob.hex()})
+        from mc import cref
+
+        cref.cuckoo_c06(cfg, f, _table(f, counting), counting, _keys(cfg), blob, bad)
 
     def _queries(self, cfg, st, bad):
         f = st.impl
